@@ -473,6 +473,18 @@ impl Net {
                                 "none".to_string()
                             }
                         }
+                        // the library's own greeting (sent as soon as its handshake task for this
+                        // connection runs): the barrier "this connection HAS been accepted"
+                        "greeting" => {
+                            let ok = Net::read_until(rc, POS_DEADLINE, |c| c.inbuf.len() >= 64).await;
+                            if ok {
+                                "greeting-ok".to_string()
+                            } else if rc.eof {
+                                "eof".to_string()
+                            } else {
+                                "none".to_string()
+                            }
+                        }
                         "eof" => {
                             let _ = Net::read_until(rc, POS_DEADLINE, |c| c.eof).await;
                             if rc.eof {
